@@ -607,8 +607,11 @@ mcache_bkt(MCACHE *mp /* IN: MCACHE cookie */)
      */
     for (bp = mp->lqh.cqh_first; bp != (void *)&mp->lqh; bp = bp->q.cqe_next)
         if (!(bp->flags & MCACHE_PINNED)) { /* Flush if dirty. */
-            if (bp->flags & MCACHE_DIRTY && mcache_write(mp, bp) == RET_ERROR)
+            if (bp->flags & MCACHE_DIRTY && mcache_write(mp, bp) == RET_ERROR) {
+                /* the page is still on the hash and lru queues: it must not be freed below */
+                bp = NULL;
                 HE_REPORT_GOTO("unable to flush a dirty page", FAIL);
+            }
 #ifdef STATISTICS
             ++mp->pageflush;
 #endif
